@@ -77,9 +77,9 @@ func ExtractTypeNameMap(v interface{}) (map[string]reflect.Type, map[string]stri
 		nameMap[name] = name
 
 		if v.CanInterface() {
-			if n, ok := v.Interface().(CodecNamable); ok {
-				nameMap[name] = n.HessianCodecName()
-				typMap[n.HessianCodecName()] = typ
+			if codecName, ok := declaredCodecName(v.Interface()); ok {
+				nameMap[name] = codecName
+				typMap[codecName] = typ
 			}
 		}
 		return true
@@ -110,6 +110,42 @@ func ExtractTypeNameMap(v interface{}) (map[string]reflect.Type, map[string]stri
 	}
 
 	return typMap, nameMap
+}
+
+// declaredCodecName return the wire name a value's type declares with HessianCodecName.
+// A struct that embeds a struct with a wire name has the method too, by promotion, but that
+// name belongs to the embedded type: two Go types under one wire name would take each
+// other's entry in the type map. The promoted method is told by its answer, which is the
+// embedded field's own.
+func declaredCodecName(value interface{}) (name string, declared bool) {
+	n, ok := value.(CodecNamable)
+	if !ok {
+		return "", false
+	}
+	// promoted from an embedded pointer that is nil, the method cannot even be called
+	defer func() {
+		if r := recover(); r != nil {
+			name, declared = "", false
+		}
+	}()
+	name = n.HessianCodecName()
+	v := reflect.ValueOf(value)
+	if v.Kind() == reflect.Struct {
+		for i := 0; i < v.NumField(); i++ {
+			f := v.Type().Field(i)
+			if !f.Anonymous {
+				continue
+			}
+			ft := f.Type
+			if ft.Kind() == reflect.Ptr {
+				ft = ft.Elem()
+			}
+			if e, ok := reflect.Zero(ft).Interface().(CodecNamable); ok && e.HessianCodecName() == name {
+				return "", false
+			}
+		}
+	}
+	return name, true
 }
 
 // widerListType check whether list type a can hold every element of list type b but not
@@ -303,8 +339,8 @@ func fetchType(typ reflect.Type, typMap map[string]reflect.Type, walked map[refl
 
 	typMap[typ.Name()] = typ
 	// the wire name of a type that declares one, as ExtractTypeNameMap registers it
-	if n, ok := reflect.Zero(typ).Interface().(CodecNamable); ok {
-		typMap[n.HessianCodecName()] = typ
+	if codecName, ok := declaredCodecName(reflect.Zero(typ).Interface()); ok {
+		typMap[codecName] = typ
 	}
 	for i := 0; i < typ.NumField(); i++ {
 		fetchType(typ.Field(i).Type, typMap, walked)
